@@ -243,7 +243,9 @@ func c11GenMsg(rt *rapid.T) *c11Gen {
 		}
 		return c11Texts[rapid.IntRange(0, len(c11Texts)-1).Draw(rt, "text")]
 	}
-	id := func() []byte { return protogen.Bytes(rt, "id", rapid.SampledFrom([]int{1, 16, 16, 16, 32, 255}).Draw(rt, "idlen")) }
+	id := func() []byte {
+		return protogen.Bytes(rt, "id", rapid.SampledFrom([]int{1, 16, 16, 16, 32, 255}).Draw(rt, "idlen"))
+	}
 	switch rapid.IntRange(0, 2).Draw(rt, "op") {
 	case 0:
 		g.msg = protogen.Query(rt, g.v, text(), cl, maxLarge)
